@@ -284,7 +284,7 @@ def random_script(rng, nv, nsteps, big):
 
 # --------------------------------------------------------------------------- running the interpreter
 
-def run_batch(exe, lines, timeout=900):
+def run_batch(exe, lines, timeout=400):
     st, so, _ = C.run_exe(exe, stdin=("".join(lines)).encode(), timeout=timeout, merge=True)
     outl = so.splitlines()
     complete = st == 0 and bool(outl) and outl[-1] == "END"
